@@ -619,7 +619,7 @@ func main() {
 	}
 	budget := 1 << 30
 	if !thorough {
-		budget = 3000
+		budget = 2500
 	}
 	walkGo(filepath.Join(repo, "ast"), &budget, nil)
 	walkGo(filepath.Join(repo, "token"), &budget, nil)
@@ -633,7 +633,7 @@ func main() {
 	if thorough {
 		pk = append(pk, "go/ast", "go/types", "go/parser", "reflect", "strings", "bytes", "encoding/json", "net/http", "internal/types/testdata", "math/rand/v2", "runtime", "fmt", "os", "testing", "context", "time")
 	}
-	gb := 1500
+	gb := 1200
 	if thorough {
 		gb = 1 << 30
 	}
